@@ -1352,8 +1352,12 @@ class ScenarioOutlineBuilder(object):
 
         tags = []
         for tag in outline_tags:
-            if cls.is_parametrized_tag(tag):
-                tag = cls.render_template(tag, row, params)
+            if not cls.is_parametrized_tag(tag):
+                # -- NORMAL TAG: Without placeholders, remains unchanged.
+                tags.append(tag)
+                continue
+
+            tag = cls.render_template(tag, row, params)
             if cls.is_parametrized_tag(tag):
                 # -- OOPS: Unknown placeholder, drop tag.
                 continue
